@@ -170,7 +170,8 @@ pub fn replay(r: &Value) -> Result<String, (String, String)> {
         }
         "pair-history" => {
             let mut rng = Rng::keyed(r["seed"].as_u64().unwrap_or(1), "C16/history", r["index"].as_u64().unwrap_or(0));
-            crate::pimon::check_two_call_history(&mut rng, &mut Default::default()).map(|_| "history handled as specified".to_string()).map_err(|m| ("pair:history".to_string(), m))
+            let r = if r["index"].as_u64().unwrap_or(0) % 2 == 0 { crate::pimon::check_two_call_history(&mut rng, &mut Default::default()) } else { crate::pimon::check_lifetime_history(&mut rng, &mut Default::default()) };
+            r.map(|_| "history handled as specified".to_string()).map_err(|m| ("pair:history".to_string(), m))
         }
         "eventfan" => {
             let mut rng = Rng::keyed(r["seed"].as_u64().unwrap_or(1), "C15/segpair", r["index"].as_u64().unwrap_or(0));
